@@ -60,8 +60,8 @@ func (queue *FileQueue) VerifIndexDump() []string {
 	queue.IndexRW.RLock()
 	defer queue.IndexRW.RUnlock()
 	out := make([]string, 0, len(queue.Index))
-	for k, v := range queue.Index {
-		out = append(out, fmt.Sprintf("%s:%d:%d", k, v.flg, v.refCnt))
+	for _, v := range queue.Index {
+		out = append(out, fmt.Sprintf("%s:%d:%d", common.ToHex(v.key), v.flg, v.refCnt))
 	}
 	sort.Strings(out)
 	return out
